@@ -8,10 +8,11 @@ git -C /repo worktree remove --force $WT 2>/dev/null
 git -C /repo worktree add -q --detach $WT HEAD || exit 2
 cp /repo/Cargo.lock $WT/
 export CARGO_NET_OFFLINE=true CARGO_TARGET_DIR=/tmp/mut-wt-target
-: > $OUT
+touch $OUT; sed -i '/^done$/d' $OUT
 cd $WT
 for m in /verif/selftest/mutants/*.diff; do
   name=$(basename $m .diff)
+  grep -q "^$name " $OUT && continue
   git checkout -q -- . 
   if ! git apply $m 2>/dev/null; then echo "$name NOAPPLY" >> $OUT; continue; fi
   if grep -q "plugins/src" $m; then
